@@ -312,7 +312,7 @@ func dischargeAll(obls []*Obligation, prelude *Prelude, workDir string, timeoutS
 			retry = append(retry, o)
 		}
 	}
-	if len(retry) == 0 || len(retry) > 24 {
+	if len(retry) == 0 || len(retry) > 24 || os.Getenv("VERIF_NORETRY") != "" {
 		return
 	}
 	sem2 := make(chan struct{}, 4)
